@@ -246,7 +246,11 @@ fn configure<'v, 'a, 'e>(
     Ok(())
 }
 
-fn gc_schedule_install(opts: &J) -> bool {
+fn gc_schedule_install(opts: &J, over: Option<(&[bool], bool)>) -> bool {
+    if let Some((mask, tail)) = over {
+        starlark::verif::set_gc_schedule(mask.to_vec(), tail);
+        return true;
+    }
     if let Some(g) = opts.get("gc") {
         if let Some(mask) = g.get("mask").and_then(|m| m.as_str()) {
             let tail = g.get("tail").and_then(|t| t.as_bool()).unwrap_or(false);
@@ -258,6 +262,10 @@ fn gc_schedule_install(opts: &J) -> bool {
 }
 
 pub fn run_spec(spec: &J) -> J {
+    run_spec_gc(spec, None)
+}
+
+pub fn run_spec_gc(spec: &J, gc_over: Option<(&[bool], bool)>) -> J {
     let opts = spec.get("opts").cloned().unwrap_or(json!({}));
     let dialect = dialect_of(opts.get("dialect").and_then(|x| x.as_str()).unwrap_or("all"));
     let globals = globals_of(opts.get("globals").and_then(|x| x.as_str()).unwrap_or("ext"));
@@ -266,7 +274,7 @@ pub fn run_spec(spec: &J) -> J {
         modules: HashMap::new(),
     };
     let mut lib_results = Vec::new();
-    let scheduled = gc_schedule_install(&opts);
+    let scheduled = gc_schedule_install(&opts, gc_over);
 
     if let Some(libs) = spec.get("libs").and_then(|l| l.as_array()) {
         for lib in libs {
